@@ -883,14 +883,23 @@ impl<'a> B<'a> {
                     None
                 };
                 let mut arms = vec![(vec![p], a)];
-                if self.c.chance(1, 4) {
+                // `else if` ladders: up to three further arms, evaluated strictly in order; a third of
+                // the further predicates carry an effect of their own (`else if (.t = push(..); p)`)
+                let mut more = self.c.chance(1, 4);
+                while more && arms.len() < 4 {
                     self.pure += 1;
                     let p2 = self.expr(Ty::Bool, d1);
                     self.pure -= 1;
+                    let mut pred = Vec::new();
+                    if self.c.chance(1, 3) {
+                        pred.push(self.trace_stmt());
+                    }
+                    pred.push(p2);
                     self.scopes.push(BTreeMap::new());
                     let b2 = vec![self.effect_stmt(d1)];
                     self.scopes.pop();
-                    arms.push((vec![p2], b2));
+                    arms.push((pred, b2));
+                    more = self.c.chance(1, 2);
                 }
                 E::If { arms, els }
             }
